@@ -18,7 +18,7 @@ from ref import expr as E
 
 PROPERTY = "C06"
 LEVEL = "exploration"
-RULE = ("models x input patterns with at most 2 non-zero inputs (shock i unanticipated/anticipated at date 1..3, exogenous "
+RULE = ("models x input patterns with at most 2 non-zero inputs (thorough: all pairs, and all triples of a sub-basis) (shock i unanticipated/anticipated at date 1..3, exogenous "
         "path, initial-condition cell) x span length {1,2,4,6} x method {stacked_time, period_by_period for backward-looking} "
         "x terminal {first_order, data} x initial_guess {first_order, data}; distinct non-trivial = (model, inputs, "
         "length, method, terminal, guess) for runs that report success")
@@ -452,6 +452,21 @@ def configs(md, quick):
     return out
 
 
+def triples(md):
+    """deviation bound 3 (thorough): every triple of a sub-basis - every unanticipated and anticipated input of the
+    first two shocks, the last initial-condition cell, an exogenous path if there is one, the model's own large inputs"""
+    S = input_singles(md)
+    u = [s for s in S if s[0] == "u"]
+    a = [s for s in S if s[0] == "a"]
+    x = [s for s in S if s[0] == "x"]
+    z = [s for s in S if s[0] == "z"]
+    two = md["shocks"][:2]
+    sub = [q for q in u if q[1] in two] + [q for q in a if q[1] in two] + x[-1:] + z[:1] + list(md.get("extra_singles", ()))[:2]
+    sub = list(dict.fromkeys(sub))
+    return [t for t in itertools.combinations(sub, 3)
+            if len({(q[0], q[1], q[2]) for q in t}) == 3]
+
+
 def shard(item, res, ctx):
     if item["part"] == "context":
         check_context_pair(res)
@@ -463,6 +478,8 @@ def shard(item, res, ctx):
     if item["part"] == "singles":
         check_variants(md, m, res)
         patterns = [()] + [(s,) for s in S]
+    elif item["part"] == "triples":
+        patterns = triples(md)[item["lo"]: item["hi"]]
     else:
         pairs = list(itertools.combinations(S, 2))
         if ctx.quick:
@@ -495,11 +512,13 @@ def run(ctx, total, info):
         else:
             for lo in range(0, n_pairs, 25):
                 shards.append({"model": md["name"], "part": "pairs", "lo": lo, "hi": lo + 25})
+            for lo in range(0, len(triples(md)), 10):
+                shards.append({"model": md["name"], "part": "triples", "lo": lo, "hi": lo + 10})
     shards.append({"part": "context", "model": "context_pair"})
     engine.run_shards(__name__, "shard", shards, ctx, total)
     c = total.counters
     info["exhaustive"] = True
-    info["bound_completed"] = 2
+    info["bound_completed"] = 2 if ctx.quick else 3
     info["floors"] = {"successful_runs": (len(total.nontrivial), 700), "stacked_time": (c.get("success_stacked_time", 0), 650),
                       "period_by_period": (c.get("success_period_by_period", 0), 50), "variant_runs": (c.get("variant_runs", 0), 9),
                       "context_pair_runs": (c.get("context_pair_runs", 0), 8)}
